@@ -272,7 +272,7 @@ func Derive(base *XDoc, cfg *XConfig, r *rng.R, k int, malformed bool, variant i
 	for i := 0; i < k; i++ {
 		hs := holders(d)
 		h := hs[r.Intn(len(hs))]
-		switch r.Intn(13) {
+		switch r.Intn(14) {
 		case 0: // remove a member
 			if len(*h) > 1 {
 				j := r.Intn(len(*h))
@@ -394,6 +394,28 @@ func Derive(base *XDoc, cfg *XConfig, r *rng.R, k int, malformed bool, variant i
 				d.Header.Members[a], d.Header.Members[b] = d.Header.Members[b], d.Header.Members[a]
 				tags = append(tags, "header-reorder")
 			}
+		case 13: // two components that both define a group of one (new) name, with different members:
+			// the shape of finding D16, here to see that at least the outcome does not vary from run to run
+			fresh++
+			cnt := newField("NUMINGROUP")
+			cnt.Name = "NoZzTwin" + fmt.Sprint(fresh)
+			var names []string
+			for q := 0; q < 2; q++ {
+				fresh++
+				cn := fmt.Sprintf("ZzTwinComp%d", fresh)
+				g := &XMember{XMLName: xml.Name{Local: "group"}, Name: cnt.Name, Required: "N"}
+				for w := 0; w <= q+r.Intn(2); w++ {
+					f := newField(types[r.Intn(len(types))])
+					g.Members = append(g.Members, &XMember{XMLName: xml.Name{Local: "field"}, Name: f.Name, Required: "N"})
+				}
+				d.Components = append(d.Components, &XComp{Name: cn, Members: []*XMember{g}})
+				names = append(names, cn)
+			}
+			m := d.Messages[r.Intn(len(d.Messages))]
+			for _, cn := range names {
+				m.Members = append(m.Members, &XMember{XMLName: xml.Name{Local: "component"}, Name: cn, Required: "N"})
+			}
+			tags = append(tags, "twin-groups")
 		case 12: // a chain of nested groups, three or four deep
 			depth := 3 + r.Intn(2)
 			var top, cur *XMember
